@@ -260,7 +260,7 @@ theorem kholawPubScalar_kholaw (zl : Bytes) :
 theorem kholawNewLeft_kholaw (zl kl : Bytes) :
     kholawNewLeft .kholaw zl kl =
       if (Bytes.toNatLE kl + kholawPubScalar .kholaw zl) % edL = 0 then .error .key
-      else if 2 ^ 256 ≤ Bytes.toNatLE kl + kholawPubScalar .kholaw zl then .error .key
+      else if 2 ^ 255 ≤ Bytes.toNatLE kl + kholawPubScalar .kholaw zl then .error .key
       else toBytesLE (Bytes.toNatLE kl + kholawPubScalar .kholaw zl) 32 := by
   rw [kholawPubScalar_kholaw, Nat.add_comm]
   unfold kholawNewLeft
@@ -278,8 +278,10 @@ theorem kholawNewRight_kholaw (zr kr : Bytes) :
 /-- **B (BIP32-Ed25519)** `CKDpub(N(parent), i) = N(CKDpriv(parent, i))` for non-hardened `i` and
 scheme `.kholaw`, as an equation between results, under `KholawLaw` and the explicit range
 hypothesis `kL + 8·zl[:28] < 2^255` (the child's left half keeps bit 255 clear; beyond that the
-private side stores a scalar whose top bit the library ignores, or is refused with `Bip32KeyError`
-because the sum needs more than 32 bytes). -/
+private side is refused with `Bip32KeyError` — since the second library repair the size test of
+`_NewPrivateKeyLeftPart` is `≥ 2^255`, no longer `≥ 2^256` — while the public side, which knows
+nothing about `kL`, still returns a key; so the hypothesis is exactly "the private side is not
+refused for size", see `kholaw_ckdPub_comm_of_ok`). -/
 theorem kholaw_ckdPub_comm (law : KholawLaw) (nd : Node) (k : Bytes) (idx : Nat)
     (hcur : nd.curve = .ed25519Kholaw) (hsch : nd.scheme = .kholaw)
     (hp : nd.priv = some k)
@@ -314,7 +316,7 @@ theorem kholaw_ckdPub_comm (law : KholawLaw) (nd : Node) (k : Bytes) (idx : Nat)
   · rw [if_pos hnz, if_pos ((law.mul_id _ hrange).mpr hnz)]; rfl
   · have hlt : Bytes.toNatLE (k.take 32) + kholawPubScalar .kholaw ((kholawZ nd idx).take 32) < 256 ^ 32 :=
       Nat.lt_trans hrange (by decide)
-    have hlt' : ¬ 2 ^ 256 ≤ Bytes.toNatLE (k.take 32) + kholawPubScalar .kholaw ((kholawZ nd idx).take 32) := by
+    have hlt' : ¬ 2 ^ 255 ≤ Bytes.toNatLE (k.take 32) + kholawPubScalar .kholaw ((kholawZ nd idx).take 32) := by
       omega
     rw [if_neg hnz, if_neg hlt', if_neg (fun e => hnz ((law.mul_id _ hrange).mp e))]
     obtain ⟨kl, hkl⟩ := (toBytesLE_ok_iff _ _).mpr hlt
@@ -346,6 +348,38 @@ theorem kholaw_ckdPub_comm (law : KholawLaw) (nd : Node) (k : Bytes) (idx : Nat)
       Except.map Node.neuter (nodeOfPriv nd.curve nd.scheme (kl ++ kr) (nd.depth + 1) idx (kholawCC nd idx) _)
     rw [h1, h2]
     rfl
+
+/-- a successful Khovratovich-Law left half is below `2^255` (the size test of the second library
+repair), and is the sum itself -/
+theorem kholawNewLeft_kholaw_ok_lt (zl kl r : Bytes) (h : kholawNewLeft .kholaw zl kl = .ok r) :
+    Bytes.toNatLE kl + kholawPubScalar .kholaw zl < 2 ^ 255 ∧
+      Bytes.toNatLE r = Bytes.toNatLE kl + kholawPubScalar .kholaw zl ∧ r.length = 32 := by
+  rw [kholawNewLeft_kholaw] at h
+  split at h
+  · cases h
+  · split at h
+    · cases h
+    · next hlt => exact ⟨Nat.lt_of_not_le hlt, toBytesLE_toNatLE h⟩
+
+/-- **B (BIP32-Ed25519), success form**: with the size test at `2^255` the range hypothesis of
+`kholaw_ckdPub_comm` is implied by the success of the private derivation, so: whenever a private
+`.kholaw` node (hand-supplied keys included — nothing is assumed about `kL`) has a non-hardened
+child `c`, the neutered node has the child `c.neuter`. -/
+theorem kholaw_ckdPub_comm_of_ok (law : KholawLaw) (nd : Node) (k : Bytes) (idx : Nat)
+    (hcur : nd.curve = .ed25519Kholaw) (hsch : nd.scheme = .kholaw)
+    (hp : nd.priv = some k)
+    (hpub : pubOfPriv .ed25519Kholaw k = some nd.pub) (hh : isHardened idx = false)
+    (c : Node) (hc : kholawChildKey nd idx = .ok c) :
+    kholawChildKey nd.neuter idx = .ok c.neuter := by
+  have hi := kholawChildKey_idx_lt nd idx c hc
+  have hc' := hc
+  rw [kholawChildKey_priv nd idx k hi hp] at hc'
+  obtain ⟨x, h1, _⟩ := (Slip10.bind_ok_iff _ _ _).mp hc'
+  rw [kholawCkdPriv_soft nd k idx hh, hsch] at h1
+  obtain ⟨kl, hleft, _⟩ := (Slip10.bind_ok_iff _ _ _).mp h1
+  have hrange := (kholawNewLeft_kholaw_ok_lt _ _ _ hleft).1
+  rw [kholaw_ckdPub_comm law nd k idx hcur hsch hp hpub hh hrange, hc]
+  rfl
 
 
 end BipVerif.Model
